@@ -162,7 +162,7 @@ def oracle_doc(doc: Dict[str, Any], fmt: str, obs: Dict[str, Any]) -> Optional[D
                 if name in warned:
                     continue
                 return {'class': 'field-lost', 'what': '@%s %s: no such variable is documented' % (kind, name)}
-            atoks, _, _ = split_render(a['html'])
+            atoks = text_of(parse(a['html'])).split()
             if atoks != bt:
                 return {'class': 'field-text', 'what': '@%s %s shows %s, written %s' % (kind, name, atoks, bt)}
             if ty is not None:
